@@ -1,3 +1,4 @@
+from vlib.runner import Obl
 from props.common import vault_obligations, krow_obligations, ktab_obligations, TRUSTED as _T
 
 PROPERTY = "C07"
@@ -9,3 +10,17 @@ OUTSIDE = "names longer than the stated bound; see C01"
 ASSUMPTIONS = ["pre-states are run-length encodings with repeats >= 1 whose maps equal make_cache_map(XML)"]
 TRUSTED = _T
 OBLIGATIONS = vault_obligations(7) + krow_obligations(7) + ktab_obligations(7, 40, 'nr')
+
+
+def _n(fn, secs, bounds, tier="quick"):
+    return Obl(name=fn, module="h_names", func=fn, timeout=max(90, secs * 4), replay="r_pure:call", tier=tier,
+               extra={"_module": "h_names", "_func": fn}, weight=secs, bounds=bounds,
+               encodes=["src/odfdo/table.py:_table_name_check,NamedRange.name (setter),forbidden_in_named_range"],
+               stubs=["h_names.NR: NamedRange whose set_attribute stores into a dict (no lxml) - only the validation code of the setter runs"])
+
+
+OBLIGATIONS += [
+    _n("table_name_any3", 17, "names of <= 3 characters, ANY character: accepted <=> office rule (non-blank after strip; none of [ ] * ? : / backslash LF; no leading/trailing apostrophe), result is the stripped name"),
+    _n("table_name_alpha5", 150, "names of <= 5 characters over {a, space, apostrophe, [, ], *, ?, :, /, backslash, LF, TAB, e-acute, .}", "thorough"),
+    _n("named_range_name", 100, "printable-ASCII names of <= 3 characters: accepted => word characters, not cell-reference shaped; certainly valid => accepted"),
+]
